@@ -75,6 +75,9 @@ func nullArrays(v any) string {
 	return ""
 }
 
+// webSeq numbers the web sessions of this worker (rotates the divide_by setting).
+var webSeq int64
+
 // checkWeb observes the JSON embedded in /flamegraph of the real web UI for
 // every granularity and selected value of one profile.
 func checkWeb(c *vk.Ctx, shs []enum.Shape, v int, grans []Gran) {
@@ -86,7 +89,18 @@ func checkWeb(c *vk.Ctx, shs []enum.Shape, v int, grans []Gran) {
 		c.Violation("harness/invalid-profile", cs, err.Error())
 		return
 	}
-	res := drive.Web(map[string][]byte{"p": drive.Encode(p)}, []string{"p"})
+	// divide_by only changes the display scale: stack values, self values and the total stay the
+	// selected sample values (sessions started with divide_by unset, 2 and 1000 in turn)
+	divs := []string{"", "2", "1000"}
+	div := divs[int(webSeq%int64(len(divs)))]
+	webSeq++
+	var flags []string
+	if div != "" {
+		flags = append(flags, "divide_by="+div)
+		cs.Via = "/flamegraph divide_by=" + div
+		c.Count("web/divide_by", 1)
+	}
+	res := drive.Web(map[string][]byte{"p": drive.Encode(p)}, []string{"p"}, flags...)
 	if res.Panic != nil {
 		c.Violationf("panic/web-start", cs, "panic: %v\n%s", res.Panic, res.Stack)
 		return
